@@ -1,6 +1,8 @@
 #!/bin/bash
-# Offline setup: build the checker once so that the Go build cache is warm.
+# Offline setup: build the checkers once (warms the Go build cache, incl. the -race build) and
+# run the reference model's self-tests (hand-computed forests, row starts against math/big).
 set -eu
 cd /verif
 ./build.sh all
+(cd vmc && GOFLAGS=-mod=mod GOPROXY=off GOSUMDB=off GOTOOLCHAIN=local go test -vet=off -count=1 ./ref)
 echo "setup ok"
